@@ -1,0 +1,75 @@
+//go:build verif
+
+package verifshim
+
+import (
+	"container/heap"
+
+	"github.com/nsqio/nsq/internal/pqueue"
+)
+
+// PQEntry is one slot of a pqueue.PriorityQueue array.
+type PQEntry struct {
+	Pri    int64
+	Index  int
+	Handle int64
+}
+
+// PQ drives a real internal/pqueue.PriorityQueue the way nsqd's channel does: through
+// container/heap's Push / Pop / Remove and the queue's own PeekAndShift.
+type PQ struct {
+	pq pqueue.PriorityQueue
+}
+
+func NewPQ(capacity int) *PQ { return &PQ{pq: pqueue.New(capacity)} }
+
+func guard(f func()) (panicked bool) {
+	defer func() {
+		if r := recover(); r != nil {
+			panicked = true
+		}
+	}()
+	f()
+	return false
+}
+
+func (p *PQ) Push(pri, handle int64) (panicked bool) {
+	return guard(func() { heap.Push(&p.pq, &pqueue.Item{Value: handle, Priority: pri}) })
+}
+
+func (p *PQ) Pop() (handle int64, index int, panicked bool) {
+	panicked = guard(func() {
+		it := heap.Pop(&p.pq).(*pqueue.Item)
+		handle, index = it.Value.(int64), it.Index
+	})
+	return
+}
+
+func (p *PQ) Remove(i int) (handle int64, index int, panicked bool) {
+	panicked = guard(func() {
+		it := heap.Remove(&p.pq, i).(*pqueue.Item)
+		handle, index = it.Value.(int64), it.Index
+	})
+	return
+}
+
+func (p *PQ) PeekAndShift(max int64) (found bool, handle int64, index int, diff int64, panicked bool) {
+	panicked = guard(func() {
+		it, d := p.pq.PeekAndShift(max)
+		diff = d
+		if it != nil {
+			found, handle, index = true, it.Value.(int64), it.Index
+		}
+	})
+	return
+}
+
+// SetPri overwrites a slot's priority without restoring heap order.
+func (p *PQ) SetPri(slot int, pri int64) { p.pq[slot].Priority = pri }
+
+func (p *PQ) Dump() (entries []PQEntry, capacity int) {
+	for _, it := range p.pq {
+		entries = append(entries, PQEntry{Pri: it.Priority, Index: it.Index, Handle: it.Value.(int64)})
+	}
+	return entries, cap(p.pq)
+}
